@@ -455,7 +455,7 @@ func ruleC06Entry(e *Env, rule string) {
 		stray := ""
 		for _, r := range flow.Returns(fn) {
 			rv := flow.ReturnValues(r)
-			if len(rv) == 2 && flow.IsNilConst(rv[1]) && rv[0] != ssa.Value(mcall) {
+			if len(rv) == 2 && knownNilAt(rv[1], r.Block()) && rv[0] != ssa.Value(mcall) { // `, err` behind the error test is a success too
 				stray = e.posOf(r)
 			}
 		}
@@ -645,8 +645,27 @@ func ruleC06Scan(e *Env, rule string) {
 		e.S.Unk(rule, site, "difference", "the loop body is not `if shorter[i] != longer[i] { … }` followed by the next index", e.posOfBlock(body))
 		return
 	}
-	e.S.Ok(rule, site, "difference", "each step compares the two operands at the counter; equal bytes continue the scan", e.posOfBlock(body))
+	// … and a difference ends it: from the differing side neither the next index nor the end of the scan is reached
+	// (a `continue` or `break` there compares what follows the first difference, which is not the same for both orders)
 	exit := head.Succs[1]
+	{
+		back := false
+		fr := flow.ReachFrom(differ)
+		for _, b := range fn.Blocks {
+			if !fr[b] {
+				continue
+			}
+			if b == head || b == exit {
+				back = true
+			}
+		}
+		// the rewind loop behind the difference has a header of its own: only the scan's header and its exit count
+		if back {
+			e.S.Bad(rule, site, "difference", "from the first differing position the scan can go on (next index) or fall out of the loop instead of returning the remainder comparison: what decides is then a later position", e.posOfBlock(differ), "1.0.0-x- vs 1.0.0-xa")
+			return
+		}
+	}
+	e.S.Ok(rule, site, "difference", "each step compares the two operands at the counter; equal bytes continue the scan, a difference ends it", e.posOfBlock(body))
 	nDiff, nEnd := 0, 0
 	bad := ""
 	var badAt *ssa.BasicBlock
